@@ -423,12 +423,24 @@ func (e *Engine) addObligation(st *State, fr *Frame, kind string, tags []string,
 	}
 	o := &Obligation{
 		Func: e.curFn.String(), Kind: kind, Tags: tags, Clause: clause, Where: where,
-		Trail: strings.Join(st.trail, " "), Expect: "unsat", Probes: probes,
+		Trail: strings.Join(st.trail, " "), Expect: "unsat", Probes: probes, Notes: dedup(st.notes),
 	}
 	o.Query = e.finishQuery(e.queryPrefix(st)+"(assert (not "+goal+"))\n", false)
 	o.ID = fmt.Sprintf("%s/%s/%d", shortName(e.curFn.String()), kind, len(e.obls)+1)
 	e.obls = append(e.obls, o)
 	return o
+}
+
+func dedup(xs []string) []string {
+	var out []string
+	seen := map[string]bool{}
+	for _, x := range xs {
+		if !seen[x] {
+			seen[x] = true
+			out = append(out, x)
+		}
+	}
+	return out
 }
 
 func (e *Engine) addObligationExpect(st *State, fr *Frame, kind string, tags []string, clause, where, expect string) *Obligation {
@@ -717,6 +729,7 @@ func (e *Engine) havocLoop(fr *Frame, st *State, hdr *ssa.BasicBlock, c *Contrac
 				return
 			}
 			all = true
+			st.notes = append(st.notes, fmt.Sprintf("heap havocked at loop #%d: its body calls %s, which has no contract", ord, name))
 		}
 	}
 	scanFn = func(fn *ssa.Function, blocks []*ssa.BasicBlock, depth int) {
